@@ -5,6 +5,7 @@ import CCVerif.Lemmas.EvalExamples6
 import CCVerif.Lemmas.EvalExamples7
 import CCVerif.Lemmas.EvalExamples8
 import CCVerif.Lemmas.EvalExamples7n
+import CCVerif.Lemmas.EvalNestedExamples
 /-!
 # C01 — evaluation returns the set-theoretic value
 
@@ -832,5 +833,96 @@ example : Stage7n Examples7.env7n Examples7.caller2 :=
 example : normalizeTree Examples7.env7n.funcs 10 Examples7.caller2 = some Examples7.caller2N := by rfl
 example : (evaluate 20 Examples7.env7n Examples7.caller2).1 = .ok (.s [.e 1, .e 2]) ∧
     denote (senvOf Examples7.env7n) 22 .nil Examples7.caller2 = some (.val (.s [.e 1, .e 2])) := by decide
+
+/-! ## stage 9: NESTED tuple patterns `Q ((a,b),c) ∈ S . P`, `D{((a,b),c) ∈ S | P}` (any nesting depth)
+
+`Normalizer::ProcessTupleDeclaration` replaces a pattern of any depth by ONE generated variable (`'@'` + ALL leaf names
+in pre-order) and every leaf by a CHAIN of projections of it (`wrapPr`, path = child indices from the root).  The
+reference semantics binds the pattern by recursive projection of the member (`bindPat`; `bindPat_leaves`: on a value of
+the type of the pattern every leaf is bound to the component along its path).
+
+Route (a reduction to stage 6 / 8, no second copy of the simulation): the chain `pr_j(pr_i(@abc))` is also what stage 6
+produces for `pr_j(ab)` under the FLAT pattern `(ab, c)` when the inner pattern is replaced by ONE variable named by
+the concatenation of its leaves - the candidate name `'@' + "ab" + "c"` is the same string, so nested and flat
+expression have the SAME normal form.  `Unn S Γ Δ e es` (`Lemmas/EvalNestedSound.lean`) is this rewriting: every pattern
+replaced by the flat pattern of its top-level components, every leaf of an inner pattern by its projection chain;
+`Unn.sound`: a value of `es` under `⟦·⟧` at fuel `f` is the value of `e` at every fuel `≥ f`.  Binding through a nested
+pattern is defined on members of the SHAPE of the pattern only, the flat pattern takes every tuple of the right
+length, so the soundness needs the reference value of every binder domain to be typed (`DomTy`): type preservation of
+`⟦·⟧` itself, proved for the class `DT` (`Lemmas/EvalNestedTy.lean`: literals, typed globals, bound variables,
+enumerations, tuples, `×`, `ℬ`, `∪ ∩ \ ∆`, `bool`, `D{}` with any condition), a hypothesis of `Unn` otherwise.
+Covered by `Unn`: literals, globals, variables, all unary / binary / n-ary ground constructs, `∈` (both forms), `pr`, `Pr`,
+`∀ ∃ D{}` over a plain variable or a pattern of any depth (distinct leaves; the component variables - concatenations of
+leaf names - distinct and not in use).  NOT covered: `R{}`, `I{}`, enumerated declarations, filters, calls inside an
+expression with nested patterns (no `Unn` rule), patterns in `R{}` / `I{}` blocks; that the normaliser returns `n` for
+`e` is a per-expression hypothesis (closed computation), as in stage 7. -/
+
+/-- stage 9: the expression un-nests to an expression of stage 8 (flat patterns only) whose normal form is the
+normaliser's answer for the expression itself -/
+def Stage9 (env : Env) (e : Ast) : Prop :=
+  ∃ G τ es n f0, GlobalsOK env G ∧ FragF env G 6 [] [] es n τ ∧ Unn (senvOf env) [] [] e es ∧
+    normalizeTree env.funcs f0 e = some n
+
+/-- **eval_refines_denote_partial9_stable**: the refinement for closed expressions with NESTED tuple patterns in
+`∀ ∃ D{}`: a value returned by `Interpreter::Evaluate` - which runs on the tree with one generated variable per pattern
+and projection chains for the leaves - is the value the reference semantics assigns to the ORIGINAL tree (leaves bound
+by recursive projection of the member), at the evaluator's fuel and at every larger one. -/
+theorem eval_refines_denote_partial9_stable (env : Env) (e : Ast) (h : Stage9 env e) (fuel f' : Nat) (hf' : fuel ≤ f') :
+    (∀ v, (evaluate fuel env e).1 = .ok v → denote (senvOf env) f' .nil e = some (.val v)) ∧
+    (∀ b, (evaluate fuel env e).1 = .okBool b → denote (senvOf env) f' .nil e = some (.bool b)) := by
+  obtain ⟨G, τ, es, n, f0, hG, hf, hu, hn⟩ := h
+  rcases evaluate_nested hG hf hu hn fuel with hg | ho | ⟨eid, pos, he, _⟩
+  · cases τ with
+    | ty ty =>
+      obtain ⟨v, hr, _, _, hd⟩ := hg
+      constructor
+      · intro v' hv; rw [hr] at hv; injection hv with hv; rw [← hv]; exact hd f' hf'
+      · intro b hb; rw [hr] at hb; cases hb
+    | logic =>
+      obtain ⟨b, hr, hd⟩ := hg
+      constructor
+      · intro v hv; rw [hr] at hv; cases hv
+      · intro b' hb; rw [hr] at hb; injection hb with hb; rw [← hb]; exact hd f' hf'
+  · constructor <;> intro x hx <;> rw [ho] at hx <;> cases hx
+  · constructor <;> intro x hx <;> rw [he] at hx <;> cases hx
+
+/-- **eval_refines_denote_partial9**: `eval_refines_denote_statement` on stage 9 (nested tuple patterns in `∀ ∃ D{}`).
+Missing from the full statement: nested patterns together with `R{}` / `I{}` / enumerated declarations / filters / calls,
+patterns in `R{}` / `I{}` blocks, domains outside `DT` without their typing hypothesis, the general proof that the
+normaliser returns the common normal form. -/
+theorem eval_refines_denote_partial9 : eval_refines_denote_statement Stage9 :=
+  fun env e h fuel => eval_refines_denote_partial9_stable env e h fuel fuel (Nat.le_refl _)
+
+/-- **unnest_sound_partial9**: the reduction itself, on the reference side alone: for closed expressions the value of
+the flat form is the value of the form with nested patterns (at every larger fuel) -/
+theorem unnest_sound_partial9 (S : SEnv) (e es : Ast) (h : Unn S [] [] e es) (f : Nat) (v : SemVal)
+    (hv : denote S f .nil es = some v) (f' : Nat) (hf' : f ≤ f') : denote S f' .nil e = some v :=
+  h.sound .nil .nil (URel.nil _ _) (EnvTy.nil _) f v hv f' (by omega)
+
+/-- **nested_pattern_binds_by_projection**: the reference semantics binds a pattern of any depth, on a member of the
+type of the pattern, by projection: the binding is defined and binds every leaf to the component along its path -/
+theorem nested_pattern_binds_by_projection (p : Ast) (τ : Ty) (v : Val) (ρ : LEnv) (hp : patOK p τ = true)
+    (hv : Ty.hasTy v τ = true) :
+    bindPat p v ρ = some (bindLeaves v (patLeaves p) ρ) ∧ ∀ q ∈ patLeaves p, ∃ u, projPath v q.2 = some u :=
+  ⟨bindPat_leaves p τ v ρ hp hv, projPath_defined p τ v hp hv⟩
+
+/-! non-vacuity of stage 9 (`Lemmas/EvalNestedExamples.lean`), over `X1 = {1,2}`:
+`∀((a,b),c)∈(X1×X1)×X1 (a=c ∨ b=c)` (false: the member `((1,1),2)`) and `D{((a,b),c)∈(X1×X1)×X1 | a=b}`; flat forms
+`∀(ab,c)∈… (pr1(ab)=c ∨ pr2(ab)=c)`, `D{(ab,c)∈… | pr1(ab)=pr2(ab)}`; common normal forms over `@abc` with the chains
+`pr1(pr1(@abc))`, `pr2(pr1(@abc))`, `pr2(@abc)` -/
+example : Stage9 Examples7.env7 Examples9.e9 :=
+  ⟨_, _, _, _, 10, Examples7.globalsOK_7, Examples9.e9s_frag.toF (Nat.le_refl _), Examples9.e9_unn, Examples9.e9_normalizes⟩
+example : Stage9 Examples7.env7 Examples9.d9 :=
+  ⟨_, _, _, _, 10, Examples7.globalsOK_7, Examples9.d9s_frag.toF (Nat.le_refl _), Examples9.d9_unn, Examples9.d9_normalizes⟩
+example : normalizeTree Examples7.env7.funcs 10 Examples9.e9 = normalizeTree Examples7.env7.funcs 10 Examples9.e9s := by rfl
+example : (evaluate 30 Examples7.env7 Examples9.e9).1 = .okBool false ∧
+    denote (senvOf Examples7.env7) 30 .nil Examples9.e9 = some (.bool false) := by decide
+example : (evaluate 30 Examples7.env7 Examples9.d9).1 =
+      .ok (.s [.t [.t [.e 1, .e 1], .e 1], .t [.t [.e 1, .e 1], .e 2], .t [.t [.e 2, .e 2], .e 1], .t [.t [.e 2, .e 2], .e 2]]) ∧
+    denote (senvOf Examples7.env7) 30 .nil Examples9.d9 =
+      some (.val (.s [.t [.t [.e 1, .e 1], .e 1], .t [.t [.e 1, .e 1], .e 2], .t [.t [.e 2, .e 2], .e 1], .t [.t [.e 2, .e 2], .e 2]])) := by
+  decide
+example : bindPat Examples9.pat9 (.t [.t [.e 1, .e 2], .e 3]) .nil =
+    some (.val "c" (.e 3) (.val "b" (.e 2) (.val "a" (.e 1) .nil))) := by rfl
 
 end CCVerif.Eval
